@@ -666,7 +666,15 @@ func c30IncrCheck(c *Ctx, name, src string) (what string, tags []string) {
 		tags = append(tags, "exit-trap-at-eof")
 	}
 	if w.Stderr != i.Stderr {
-		return fmt.Sprintf("stderr differs: whole file %q, statement at a time %q", w.Stderr, i.Stderr), tags
+		// the EXIT trap, which only the whole-file run triggers, is exempt on stderr as well: when it
+		// ran at the end of the file (its TRAP: line is on stdout) and xtrace happened to be on, the
+		// whole-file run additionally traces the trap's command ("+ echo 'TRAP:…'")
+		extra, isPrefix := strings.CutPrefix(w.Stderr, i.Stderr)
+		trapTrace := trapLine && isPrefix && strings.HasPrefix(extra, "+ echo ") && strings.Contains(extra, "TRAP:") && strings.Count(extra, "\n") == 1
+		if !trapTrace {
+			return fmt.Sprintf("stderr differs: whole file %q, statement at a time %q", w.Stderr, i.Stderr), tags
+		}
+		tags = append(tags, "exit-trap-xtrace")
 	}
 	if w.Err != i.Err || w.Exited != i.Exited || w.Panic != i.Panic {
 		return fmt.Sprintf("final status differs: whole file err=%q exited=%v panic=%q, statement at a time err=%q exited=%v panic=%q", w.Err, w.Exited, w.Panic, i.Err, i.Exited, i.Panic), tags
